@@ -24,6 +24,7 @@ func init() {
 }
 
 func runC32(c *core.Ctx) {
+	checkApprovalNamesTheRequest(c)
 	fn := c.Fn(pkNM, "CheckConsensusSigns")
 	getCS := eng.Obj(c, pkNM, "getConsensusSigns")
 	putCS := eng.Obj(c, pkNM, "putConsensusSigns")
